@@ -171,7 +171,42 @@ fn roundtrips(ds: &[ReplicationDelta], rng: &mut Rng, out: &mut Out) {
             out.violation("C14:roundtrip:wal-entry", "a delta did not survive from_delta/encode/decode/to_delta", json!({"delta": show_delta(d), "ts": ts}));
         }
     }
-    // gossip messages (serde_json): every variant that carries deltas
+    gossip_roundtrips(ds, rng, out);
+}
+
+fn variant_name(m: &GossipMessage) -> &'static str {
+    match m {
+        GossipMessage::DeltaBatch { .. } => "DeltaBatch",
+        GossipMessage::TargetedDelta { .. } => "TargetedDelta",
+        GossipMessage::SyncRequest { .. } => "SyncRequest",
+        GossipMessage::SyncResponse { .. } => "SyncResponse",
+        GossipMessage::Heartbeat { .. } => "Heartbeat",
+    }
+}
+
+/// canonical text of a gossip message: every field, payload BYTES in hex (through the public
+/// fields of the registers, not through Display / serde)
+fn show_gossip(m: &GossipMessage) -> String {
+    let meta = match m {
+        GossipMessage::DeltaBatch { source_replica, epoch, .. } => format!("{} {}", source_replica.0, epoch),
+        GossipMessage::TargetedDelta { source_replica, target_replica, epoch, .. } => format!("{} {} {}", source_replica.0, target_replica.0, epoch),
+        GossipMessage::SyncRequest { source_replica, known_versions } => {
+            let mut kv: Vec<String> = known_versions.iter().map(|(k, v)| format!("{}={}", hex(k.as_bytes()), v)).collect();
+            kv.sort();
+            format!("{} {}", source_replica.0, kv.join(","))
+        }
+        GossipMessage::SyncResponse { source_replica, .. } => format!("{}", source_replica.0),
+        GossipMessage::Heartbeat { source_replica, epoch } => format!("{} {}", source_replica.0, epoch),
+    };
+    let ds: Vec<String> = m.clone().into_deltas().unwrap_or_default().iter().map(show_delta).collect();
+    format!("{} {} [{}]", variant_name(m), meta, ds.join(" | "))
+}
+
+/// the gossip encoding (serde_json over the derived impls) as a first-class part of the tie:
+/// every delta through every message variant, payload bytes compared; every truncation of the
+/// JSON frame must be rejected; byte flips are measured (JSON frames carry no checksum, so a
+/// flipped digit legitimately decodes to other data: the property claims the round trip only)
+fn gossip_roundtrips(ds: &[ReplicationDelta], rng: &mut Rng, out: &mut Out) {
     let src = ReplicaId::new(rng.range(1, 3));
     let msgs = vec![
         GossipMessage::new_delta_batch(src, ds.to_vec(), rng.next()),
@@ -181,30 +216,63 @@ fn roundtrips(ds: &[ReplicationDelta], rng: &mut Rng, out: &mut Out) {
         GossipMessage::SyncRequest { source_replica: src, known_versions: ds.iter().map(|d| (d.key.clone(), rng.next())).collect() },
     ];
     for m in msgs {
-        out.count("roundtrip:gossip");
-        let show = |m: &GossipMessage| -> String {
-            let j = serde_json::to_value(m).unwrap();
-            let tag = j.as_object().unwrap().keys().next().unwrap().clone();
-            let meta = match m {
-                GossipMessage::DeltaBatch { source_replica, epoch, .. } => format!("{} {}", source_replica.0, epoch),
-                GossipMessage::TargetedDelta { source_replica, target_replica, epoch, .. } => format!("{} {} {}", source_replica.0, target_replica.0, epoch),
-                GossipMessage::SyncRequest { source_replica, known_versions } => {
-                    let mut kv: Vec<String> = known_versions.iter().map(|(k, v)| format!("{}={}", hex(k.as_bytes()), v)).collect();
-                    kv.sort();
-                    format!("{} {}", source_replica.0, kv.join(","))
-                }
-                GossipMessage::SyncResponse { source_replica, .. } => format!("{}", source_replica.0),
-                GossipMessage::Heartbeat { source_replica, epoch } => format!("{} {}", source_replica.0, epoch),
-            };
-            let ds: Vec<String> = m.clone().into_deltas().unwrap_or_default().iter().map(show_delta).collect();
-            format!("{} {} [{}]", tag, meta, ds.join(" | "))
+        let var = variant_name(&m);
+        out.count(&format!("roundtrip:gossip:{}", var));
+        let want = show_gossip(&m);
+        let bytes = match catch_unwind(AssertUnwindSafe(|| m.serialize())) {
+            Ok(Ok(b)) => b,
+            _ => {
+                out.op(format!("g {} 0", var), "serialize FAILED".into());
+                out.violation(&format!("C14:gossip:roundtrip:{}", var), "a gossip message could not be serialised", json!({"message": want}));
+                continue;
+            }
         };
-        let ok = match m.serialize().ok().and_then(|b| GossipMessage::deserialize(&b).ok()) {
-            Some(m2) => show(&m2) == show(&m),
-            None => false,
+        let back = catch_unwind(AssertUnwindSafe(|| GossipMessage::deserialize(&bytes)));
+        let got = match &back {
+            Ok(Ok(m2)) => Some(show_gossip(m2)),
+            _ => None,
         };
+        let ok = got.as_deref() == Some(want.as_str());
+        // the law `de (ser m) = some m` of the model's gossip codec instance, checked on every run
+        out.op(format!("g {} {}", var, bytes.len()), if ok { "roundtrip ok".into() } else { "roundtrip DIFFERENT".into() });
         if !ok {
-            out.violation("C14:roundtrip:gossip", "a gossip message did not survive serialize/deserialize", json!({"message": show(&m)}));
+            // name the first delta that differs, with its payload bytes
+            let orig: Vec<String> = m.clone().into_deltas().unwrap_or_default().iter().map(show_delta).collect();
+            let dec: Vec<String> = match back {
+                Ok(Ok(m2)) => m2.into_deltas().unwrap_or_default().iter().map(show_delta).collect(),
+                _ => vec![],
+            };
+            let first = orig.iter().zip(dec.iter()).find(|(a, b)| a != b).map(|(a, b)| json!({"sent": a, "received": b}));
+            out.violation(
+                &format!("C14:gossip:roundtrip:{}", var),
+                "a gossip message did not survive serialize/deserialize unchanged (payload bytes compared)",
+                json!({"variant": var, "first_differing_delta": first, "sent": want.chars().take(600).collect::<String>(), "received": got.map(|g| g.chars().take(600).collect::<String>()), "json": String::from_utf8_lossy(&bytes).chars().take(600).collect::<String>()}),
+            );
+            continue;
+        }
+        // truncation at every length (sampled when the frame is long): never a decoded message
+        let n = bytes.len();
+        for l in 0..n {
+            if n > 400 && !(l < 48 || l + 48 >= n || rng.chance(1, (n / 120).max(1) as u64)) {
+                continue;
+            }
+            out.count("damage:gossip:truncate");
+            match catch_unwind(AssertUnwindSafe(|| GossipMessage::deserialize(&bytes[..l]))) {
+                Err(_) => out.violation("C14:gossip:panic:truncate", "deserialising a truncated gossip frame panicked", json!({"variant": var, "len": l})),
+                Ok(Err(_)) => {}
+                Ok(Ok(m2)) => out.violation("C14:gossip:truncate:decoded", "a truncated gossip frame was decoded", json!({"variant": var, "len": l, "of": n, "decoded": show_gossip(&m2).chars().take(300).collect::<String>()})),
+            }
+        }
+        // byte flips: measured, not judged (no checksum on the wire)
+        for _ in 0..24.min(n) {
+            let p = rng.below(n as u64) as usize;
+            let mut b = bytes.clone();
+            b[p] ^= 1 << rng.below(8);
+            match catch_unwind(AssertUnwindSafe(|| GossipMessage::deserialize(&b))) {
+                Err(_) => out.violation("C14:gossip:panic:flip", "deserialising a damaged gossip frame panicked", json!({"variant": var, "pos": p})),
+                Ok(Err(_)) => out.count("gossip-flip:rejected"),
+                Ok(Ok(m2)) => out.count(if show_gossip(&m2) == want { "gossip-flip:identical" } else { "gossip-flip:decoded-different(no checksum on the wire)" }),
+            }
         }
     }
 }
@@ -638,6 +706,21 @@ pub fn run(a: &Args) {
         segment_case(&w, &mut rng, &mut out, false, "corpus:embedded-footer");
         wal_entry_damage(&w[0], &mut rng, &mut out, false, true);
         out.count(if out.oracle.len() == before { "corpus:embedded-footer+stamp-flip:pass" } else { "corpus:embedded-footer+stamp-flip:FAIL" });
+    }
+    // non-UTF-8 payloads ([0xff], a SETBIT-style bitmap, a hash field with invalid UTF-8) through every
+    // encoding, first
+    {
+        let mk = |key: &str, v: Vec<u8>| {
+            let m = MRv { crdt: MCrdt::Lww(MLww { v: Some(v), t: 2, r: 1, tomb: false }), vc: None, exp: None, t: 2, r: 1, rf: None };
+            ReplicationDelta::new(key.into(), m.to_real(), ReplicaId::new(1))
+        };
+        let mut h = std::collections::BTreeMap::new();
+        h.insert("f".to_string(), MLww { v: Some(vec![0xC3, 0x28, 0xFF]), t: 3, r: 1, tomb: false });
+        let hash = ReplicationDelta::new("h".into(), MRv { crdt: MCrdt::H(h), vc: None, exp: None, t: 3, r: 1, rf: None }.to_real(), ReplicaId::new(1));
+        let ds = vec![mk("ff", vec![0xFF]), mk("bitmap", vec![0x80, 0x01, 0xFE, 0x00, 0xFF]), hash];
+        roundtrips(&ds, &mut rng, &mut out);
+        segment_case(&ds, &mut rng, &mut out, false, "non-utf8-payloads");
+        checkpoint_case(&ds, &mut rng, &mut out, false);
     }
     // a 1 MiB value and a 300-field hash: round trips on the Rust side only (no model op: the
     // line protocol would carry megabytes of hex)
